@@ -3,6 +3,7 @@ evidence, known findings."""
 import hashlib
 import json
 import os
+import re
 import time
 import traceback
 
@@ -196,6 +197,27 @@ class Ctx(object):
     def new_helper(self, path):
         """A crate-local function the oracle vocabulary does not know: inline it."""
         return path not in self.vocabulary()
+
+    def owner(self, path):
+        """The function a call site 'belongs to' for who-may-call rules: a closure belongs to the function
+        that contains it, and a helper the oracle vocabulary does not know (not `pub`) belongs to its only
+        caller -- so extracting a private helper does not create a new caller, while a second caller does."""
+        seen = set()
+        while True:
+            path = re.sub(r'(::\{closure#\d+\})+$', '', path)
+            if path in seen or not self.new_helper(path):
+                return path
+            seen.add(path)
+            fn = self.fns.get(path)
+            if fn is None or fn.get('vis') == 'pub' or fn.get('impl_trait'):
+                return path
+            cs = set(re.sub(r'(::\{closure#\d+\})+$', '', c) for c in self.cg.callers(path)) - {path}
+            if len(cs) != 1:
+                return path
+            path = cs.pop()
+
+    def callers(self, target):
+        return set(self.owner(c) for c in self.cg.callers(target))
 
     def evaluator(self, depth=4, inline_filter=None):
         if depth == 0 and inline_filter is None:
